@@ -59,7 +59,25 @@ impl BlockParser {
             let prev_line = state.line;
 
             for rule in self.ruler.iter() {
+                #[cfg(markdown_it_verif)]
+                let probe = if crate::verif::probe_on() {
+                    crate::verif::probe_call();
+                    let children = state.node.children.len();
+                    let verdict = rule(state, true);
+                    if state.node.children.len() != children {
+                        crate::verif::probe_record(format!("block look-ahead at line {} changed the tree", prev_line));
+                    }
+                    state.line = prev_line;
+                    Some(verdict)
+                } else { None };
+
                 ok = rule(state, false);
+
+                #[cfg(markdown_it_verif)]
+                if probe == Some(true) && !ok {
+                    crate::verif::probe_record(format!("block look-ahead accepted line {} but the real call did not", prev_line));
+                }
+
                 if ok {
                     assert!(state.line > prev_line, "block rule didn't increment state.line");
                     break;
